@@ -333,10 +333,48 @@ def main17(tag, outdir):
         open(os.path.join(outdir, aid + ".txt"), "w").write(out)
         print(aid, len(out))
 
+# wave 18: changes that show only in an EXTREME BUT REACHABLE configuration (the kind a harness may wrongly take for unreachable)
+EXTREME18 = [
+ ("K01", "reward emission rates, reward vault sizes and the time between reward updates"),
+ ("K02", "liquidity magnitudes: position / pool liquidity near the top of u128, liquidity_net / liquidity_gross of ticks at their limits, token amounts next to u64::MAX"),
+ ("K03", "fee rates at their limits: fee tiers at 0 and at the maximum, protocol fee rate at 0 and at its maximum, adaptive total rates at the hard limit"),
+ ("K04", "tick spacings at the ends of the allowed range (1, odd values, 32767, 32768 and above) and tick arrays at the ends of the tick range"),
+ ("K05", "the ends of the price range: pools at or next to MIN_SQRT_PRICE / MAX_SQRT_PRICE, price limits equal to the bounds, positions bounded by the outermost usable ticks"),
+ ("K06", "adaptive-fee constants at the ends of what initialize_adaptive_fee_tier / set_adaptive_fee_constants accept (periods, reduction factor, control factor, max accumulator, group size, major-swap threshold)"),
+ ("K07", "Token-2022 transfer-fee configurations at their limits (10000 bps, maximum fee 0 or u64::MAX, schedule switches at an epoch boundary)"),
+ ("K08", "time: very long gaps between instructions, equal timestamps, timestamps next to the ends of their types (reward updates, position locks, trade-enable time, adaptive-fee periods)"),
+ ("K09", "the Rust core SDK (rust-sdk/core) called with extreme but valid inputs: amounts next to u64::MAX, slippage 0 and 10000 bps, ticks at the ends of the range, maximal fee rates"),
+ ("K10", "counts at their limits: bundle indexes 0 and 255, the maximum number of supplemental tick arrays and of remaining accounts, all three rewards in use, first and last slot of a tick array"),
+]
+
+def main18(tag, outdir):
+    os.makedirs(outdir, exist_ok=True)
+    root = os.path.dirname(os.path.dirname(os.path.abspath(__file__)))
+    brief = open(os.path.join(root, "notes/SEED_BRIEF.md")).read().split("\n---\n", 1)[1]
+    props = [json.loads(l) for l in open(os.path.join(root, "properties.jsonl"))]
+    plist = "\n".join(f"* {p['id']} — {p['title']}. {p['statement']}" for p in props)
+    for aid, area in EXTREME18:
+        d = f"/tmp/{tag}_{aid}"
+        text = ("This time you are not given one property but a KIND OF EXTREME. The repository is expected to satisfy all of the "
+                "following properties (each must hold for every input, history and configuration):\n\n" + plist +
+                "\n\nYour subject:\n  - " + area +
+                "\n\nTests and verification harnesses usually work with ordinary magnitudes and often take the extremes for unreachable. Find a configuration of "
+                "your subject that is EXTREME BUT REACHABLE - show in demo.md which instructions, with which arguments, bring a pool there and why each of them is "
+                "accepted - and make a change that behaves exactly as before for ordinary magnitudes and breaks one of the properties above in that configuration. "
+                "Pick whichever property your change breaks, and say which one in meta.json (\"property\": \"Cxx\").")
+        out = (brief.replace("{dir}", d).replace("{property}", text).replace("{used}", "(about 290 earlier changes exist, nearly all of them visible at ordinary magnitudes - a change that needs an EXTREME BUT REACHABLE configuration is what is wanted here)")
+               .replace("{steer}", "For every ordinary configuration (amounts and liquidity below 2^40, standard tick spacings, fee rates of a few percent at most, timestamps minutes or hours apart, a handful of accounts) the behaviour must be bit for bit as before. Say in demo.md how you checked that.")
+               .replace("{id}", "Cxx"))
+        out = out.replace("Earlier changes written against this property are listed here", "Earlier changes")
+        open(os.path.join(outdir, aid + ".txt"), "w").write(out)
+        print(aid, len(out))
+
 def main():
     tag, outdir = sys.argv[1], sys.argv[2]
     if tag.startswith("seed17"):
         return main17(tag, outdir)
+    if tag.startswith("seed18"):
+        return main18(tag, outdir)
     if tag.startswith("seed14") or tag.startswith("seed15") or tag.startswith("seed16"):
         return main14(tag, outdir)
     if tag.startswith("seed13"):
